@@ -6,7 +6,9 @@ package main
 
 import (
 	"fmt"
+	"os"
 	"sort"
+	"strconv"
 	"strings"
 	"time"
 
@@ -21,13 +23,13 @@ import (
 var r *explore.Run
 
 type op struct {
-	Name   string
-	Family string // stable name for signatures
-	Seq    ansi.Sequence
-	Resize [2]int // w,h if >0
-	Draw   *[4]int // host window col,row,w,h
-	NoDrain bool  // feed without draining raised events
-	Drain   bool  // consume one raised event
+	Name    string
+	Family  string // stable name for signatures
+	Seq     ansi.Sequence
+	Resize  [2]int  // w,h if >0
+	Draw    *[4]int // host window col,row,w,h
+	NoDrain bool    // feed without draining raised events
+	Drain   bool    // consume one raised event
 }
 
 // huge is the largest parameter the parser delivers (it saturates there); a
@@ -412,11 +414,10 @@ func runPath(c *cfg, path []uint16) (uint64, explore.Status) {
 		var why, clause string
 		var panicked bool
 		var site, msg string
-		if slowSkip[o.Name] {
-			if last {
-				return 0, explore.StInvalid
-			}
-			r.Fault("path %v contains an operation already reported as unbounded", path)
+		if slowSkip[o.Name] && last {
+			// (as a prefix step the operation ran in normal time when the path was explored: how long it takes
+			// may depend on the state it meets)
+			return 0, explore.StInvalid
 		}
 		done := make(chan struct{})
 		go func() {
@@ -490,7 +491,14 @@ func main() {
 	}
 	mk := func(c *cfg) *explore.BFS {
 		d := r.Pick(3, 4)
-		return &explore.BFS{R: r, Name: c.name, NumOps: len(c.ops), MaxDepth: d,
+		// a level that is still running after the budget is cut short (reported, exhaustive=false) instead of running
+		// into the worker time limit: depth 4 takes 10-15 minutes per start state on 16 idle cores, several times that
+		// on a loaded machine
+		budget := 20 * time.Minute
+		if v, err := strconv.Atoi(os.Getenv("VERIF_BFS_BUDGET_S")); err == nil && v > 0 {
+			budget = time.Duration(v) * time.Second
+		}
+		return &explore.BFS{R: r, Name: c.name, NumOps: len(c.ops), MaxDepth: d, Budget: budget,
 			RunPath: func(p []uint16) (uint64, explore.Status) { return runPath(c, p) }}
 	}
 	if r.Replay != "" {
